@@ -25,6 +25,8 @@ type World struct {
 	Prog    *ssa.Program
 	SSAPkgs map[string]*ssa.Package // by import path
 	ByPath  map[string]*packages.Package
+	// component -> Go type of the stored value; shared by every VC and the mod-set namer (sequential use only)
+	compType map[string]types.Type
 }
 
 func repoDir() string {
